@@ -392,12 +392,61 @@ def stale_case(rng):
                 nontrivial=True, op="stale-sign-rekey", triggers=["stale_phase_key_rekeyed"])
 
 
+def disjoint_add_case(rng):
+    """x + y / x - y / x += y where y carries pending signs and x stores NO block on those sectors (an empty
+    accumulator, an array whose blocks were all dropped, or one lacking exactly those sectors): blocks present
+    only in y are taken over into the result and must bring their signs along"""
+    import symmray as sr
+
+    sym = rng.choice(gen.SYMS)
+    nd = rng.randint(1, 3)
+    y = gen.rand_array(rng, sym, ndim=nd, fermi=True, dtype=rng.choice(["float64", "complex128"]), keep=1.0,
+                       pending=True, max_charges=2)
+    kind = rng.choice(["empty", "dropped", "partial"])
+    x = y.phase_sync()
+    if kind == "empty":
+        for s_ in list(x.blocks):
+            del x.blocks[s_]
+    elif kind == "dropped":
+        x = x * 0
+        x.drop_missing_blocks()
+    else:
+        for s_ in list(y.phases):
+            x.blocks.pop(s_, None)
+    opname = "add"  # subtraction requires every right block to be present on the left (raises otherwise)
+    env = {"x": x, "y": y}
+    steps = [{"out": ["z"], "op": opname, "in": ["x", "y"], "params": {}}]
+    res, env2 = impl.run_prog(env, steps)
+    orc = None
+    if "ok" in res[0]:
+        z = env2["z"]
+        ze = (x + y.phase_sync()) if opname == "add" else (x - y.phase_sync())
+        if _val(z.phase_sync()) != _val(ze.phase_sync()):
+            orc = (f"x {'+' if opname == 'add' else '-'} y with pending signs on y and x storing no block there ({kind} left "
+                   "operand) differs from the same operation on the synchronised copy of y")
+        else:
+            w = x.copy()
+            if opname == "add":
+                w += y
+            else:
+                w -= y
+            if _val(w.phase_sync()) != _val(ze.phase_sync()):
+                orc = f"in-place {opname} with a lazily signed right operand ({kind} left operand) differs from the synchronised run"
+    else:
+        orc = f"{opname} raised {res[0].get('msg')}"
+    case = {"kind": "prog", "env": {k: ser.enc_val(v) for k, v in env.items()}, "steps": steps}
+    return dict(case=case, impl=stream.strip_py(res), oracle=orc,
+                meta=dict(sym=sym, fermi=True, kind="disjoint-add", left=kind, pending=bool(y.phases)),
+                nontrivial=bool(y.phases), op=opname, triggers=[])
+
+
 def gen_cases(seed, chunk, n, tier):
     rng = random.Random(seed * 7919 + chunk * 104729 + 9)
     out = [hermitian_case(rng) for _ in range(max(1, n // 8))]
     out += [solve_case(rng) for _ in range(max(1, n // 8))]
     out += [derived_case(rng) for _ in range(max(1, n // 6))]
     out += [stale_case(rng) for _ in range(max(1, n // 10))]
+    out += [disjoint_add_case(rng) for _ in range(max(1, n // 8))]
     for _ in range(n):
         env0, steps, results, meta = progs.rand_program(rng, fermi=True, length=rng.randint(1, 5), pending=True)
         # rebuild python env from the encoded one is avoided: regenerate by replaying on decoded arrays
